@@ -109,7 +109,8 @@ def scale_up(rng, st, names, family=None):
         st["ivec"] = [[(i * 7) % 11 - 5 for i in range(n)], [1] * min(n, 50)] + list(st["ivec"])
         st["int"] = [rng.choice([n - 1, n, 0, -1])] + list(st["int"])
     elif k == 5:
-        st["fvec"] = [[fbits(float((i * 7) % 11)) for i in range(n)]] + list(st["fvec"])
+        st["fvec"] = [rng.choice([[fbits(float((i * 7) % 11)) for i in range(n)], [fbits(0.1 * ((i * 7) % 11) + 1e-3 * i) for i in range(n)],
+                                  [fbits(1e8)] + [fbits(1.0)] * (n - 2) + [fbits(-1e8)]])] + list(st["fvec"])
         st["bvec"] = [[i % 3 == 0 for i in range(n)]] + list(st["bvec"])
     else:
         st["exec"] = list(st["exec"]) + [Z(i % 4) for i in range(n)]
@@ -265,8 +266,10 @@ def rand_graphs(rng, tiny=False, nsnap=None):
 
     offs = []                        # ids are offsets first
 
+    gaps = rng.random() < 0.1          # ids far apart, at multiples of 128 (a bit set / hash bucket indexed by id mod 2^k would collide)
+
     def fresh():
-        o = (offs[-1] if offs else 0) + rng.choice([1, 1, 1, 2, 3])
+        o = (offs[-1] if offs else 0) + (rng.choice([128, 128, 256, 127, 129, 1, 64]) if gaps else rng.choice([1, 1, 1, 2, 3]))
         offs.append(o)
         return o
     stack = []
@@ -300,6 +303,8 @@ def rand_graphs(rng, tiny=False, nsnap=None):
                 elif ks and not tiny:
                     g.remove_node(rng.choice(ks))
         stack.append(g)
+    if len(stack) >= 2 and rng.random() < 0.12:
+        stack.reverse()                # the OLDER snapshot lies on top (e.g. after a GRAPH.YANK-like host manipulation): diffs the other way round
     span = (offs[-1] if offs else 0) + rng.choice([1, 1, 2, 4])
     base = next_base(span + 8)       # + room for the ids a few steps may issue
     ren = lambda k: base + k
@@ -554,7 +559,56 @@ def shape_nbr_case(rng, name, st, names):
     return st, bound
 
 
-def step_case(rng, name, names, safe_names, profile=None, scale=0.08):
+def loop_continuation(rng, names):
+    """the item a running EXEC.LOOP / CODE.LOOP leaves on EXEC between two iterations"""
+    body = rng.choice([I("NOOP"), L(Z(1), I("INTEGER.+")), I("EXEC.DUP"), L(I("INDEX.CURRENT"), I("EXEC.K")), rand_item(rng, names, 2)])
+    return L(I("INDEX.INCREASE"), I(rng.choice(["EXEC.LOOP", "CODE.LOOP"])), body)
+
+
+def coincide(rng, st, name, names):
+    """relations BETWEEN operands that independent random generation rarely produces: equal items on top of one stack, the same
+    item on two stacks, CODE equal to EXEC, a pending instruction of the same family, a loop continuation, alias cycles,
+    a bound name that is its own definition, the top NAME spelled like an instruction"""
+    fam = name.split(".")[0] if "." in name else "EXEC"
+    r = rng.randrange(12)
+    keys = [k for k in ("bool", "code", "exec", "float", "int", "name", "bvec", "fvec", "ivec") if len(st.get(k, [])) >= 1]
+    if r in (0, 1) and keys:                       # duplicate top
+        k = rng.choice(keys); st[k] = [st[k][0]] + list(st[k])
+    elif r == 2 and st["code"]:                    # the same item on CODE and next on EXEC
+        st["exec"] = [st["code"][rng.randrange(len(st["code"]))]] + list(st["exec"])
+    elif r == 3 and st["exec"]:
+        st["code"] = [st["exec"][0]] + list(st["code"])
+    elif r == 4:                                   # CODE is a copy of EXEC (a program already copied)
+        st["code"] = list(st["exec"])
+    elif r == 5:                                   # a pending instruction of the same family follows
+        nxt = [n for n in names if n.startswith(fam + ".")] or ["NOOP"]
+        st["exec"] = [I(rng.choice([fam + ".POP" if fam + ".POP" in names else rng.choice(nxt), rng.choice(nxt)]))] + list(st["exec"])
+        if len(st["code"]) >= 1: st["code"] = [st["code"][0]] + list(st["code"])
+    elif r == 6:                                   # a loop continuation on top of / second on EXEC
+        lc = loop_continuation(rng, names)
+        st["exec"] = ([lc] + list(st["exec"])) if rng.random() < 0.5 else (list(st["exec"][:1]) + [lc] + list(st["exec"][1:]))
+        if not st["index"]: st["index"] = [(1, 3), (0, 7)]
+    elif r == 7:                                   # alias cycle among the bindings, a member on the NAME stack
+        cyc = rng.choice([[("A", N("B")), ("B", N("A"))], [("A", N("A"))], [("X", N("Y")), ("Y", N("Z")), ("Z", N("X"))]])
+        st["bind"] = cyc + [b for b in st["bind"] if b[0] not in dict(cyc)]
+        st["name"] = [cyc[0][0]] + list(st["name"])
+    elif r == 8:                                   # NAME top spelled like a registered instruction / with blank edges / empty
+        st["name"] = [rng.choice([rng.choice(names), "NOOP", " padded", "tail\t", ""])] + list(st["name"])
+    elif r == 9 and st["name"] and st["bind"]:     # the bound name also lies deeper in the NAME stack and in CODE
+        b = rng.choice(st["bind"])[0]
+        st["name"] = [b] + list(st["name"]) + [b]; st["code"] = [N(b)] + list(st["code"])
+    elif r == 10 and st["int"]:                    # the top INTEGER equals the depth / length of some OTHER stack or vector
+        cands = [len(st[k]) for k in keys] + [len(v) for k in ("bvec", "fvec", "ivec") for v in st[k][:1]]
+        st["int"] = [rng.choice(cands) + rng.choice([0, 0, -1, 1])] + list(st["int"][1:])
+    elif r == 11:                                  # vectors that are sorted / constant / alternating
+        n = rng.choice([2, 3, 8, 17, 33])
+        st["ivec"] = [rng.choice([list(range(n)), [7] * n, [i % 2 for i in range(n)], list(range(n, 0, -1))])] + list(st["ivec"])
+        st["fvec"] = [[fbits(x) for x in rng.choice([[float(i) for i in range(n)], [1e8] + [1.0] * (n - 2) + [-1e8], [0.1 * i for i in range(n)], [0.5] * n])]] + list(st["fvec"])
+        st["bvec"] = [rng.choice([[True] * n, [False] * n, [i % 2 == 0 for i in range(n)]])] + list(st["bvec"])
+    return st
+
+
+def step_case(rng, name, names, safe_names, profile=None, scale=0.08, relate=0.2):
     """scale: probability that one component of the state is made LARGE (scale_up)"""
     if name.startswith("GRAPH."):
         return graph_case(rng, name, names, safe_names, profile)
@@ -572,6 +626,8 @@ def step_case(rng, name, names, safe_names, profile=None, scale=0.08):
         st["int"] = [rng.randrange(-3 if SINE_NEGATIVE else 0, 13) for _ in st["int"]]
     if name not in ALLOCATING and rng.random() < scale:
         st = scale_up(rng, st, names, name)
+    elif name not in ALLOCATING and name not in NBR and rng.random() < relate:
+        st = coincide(rng, st, name, safe_names)
     if name in ALLOCATING:
         st = tame_ints(st)
         st["float"] = [fbits(rng.choice([0.0, 0.5, 1.0, 1.5, 2.0, 3.0])) for _ in st["float"]]
